@@ -187,6 +187,19 @@ def run(spec, ctx):
                 live["k"] = r.choice([2, 3, "a", None, 10])
                 live["names"] = r.sample(["a", "b", "k", "v", ""], 2)
                 live["list"] = [r.choice(gen.MEM_LEAVES) for _ in range(3)]
+        if True:
+            # constant sub-expressions that are twins under Python's == (1 / 1.0 / true, 0 / false) side by side in one filter
+            def sq(root, *ns):
+                return ["sq", ["q", root, [["child", [["name", n]]] for n in ns]]]
+            for la, lb in ((1, True), (True, 1), (0, False), (False, 0.0), (1.0, True), (1, 1.0), (None, 0), ("1", 1)):
+                for mk in (lambda v: ["cmp", "==", sq("_", "x"), ["lit", v]], lambda v: ["cmp", "!=", sq("_", "x"), ["lit", v]], lambda v: ["cmp", "==", sq("$", "flag"), ["lit", v]],
+                           lambda v: ["cmp", "in", ["lit", v], sq("_", "list")] if not isinstance(v, bool) and v is not None else ["cmp", "==", sq("_", "x"), ["lit", v]]):
+                    e = ["or", ["paren", ["and", mk(la), ["cmp", "==", sq("@", "a"), ["lit", 1]]]], ["paren", ["and", mk(lb), ["cmp", "==", sq("@", "a"), ["lit", 2]]]]]
+                    ast = ["q", "$", [["child", [["name", "items"]]], ["child", [["filter", e]]]]]
+                    for x in (1, True, 0, False, 1.0, None, "1"):
+                        doc_ = {"flag": x, "items": [{"a": 1}, {"a": 2}, {"a": 3}]}
+                        ex_ = {"x": x, "list": ["a", 2, "v1"] if isinstance(x, bool) or x is None else [x, "a"], "k": 2, "o": {}, "s": "", "names": []}
+                        both_spellings(ctx, ast, doc_, ex_, "twin-constants", n=1)
         for i in range(spec["n"]):
             names = r.sample(["a", "b", "c", "k", "v", "é", "0"], r.randint(2, 4))
             fg = gen.ExtFilterGen(r, names, max_depth=spec["depth"])
